@@ -141,6 +141,9 @@ func (w *Writer) WriteMessage(message any, codec Codec) (err error) {
 	messageDesc := QueryMessageDesc(message)
 
 	if messageDesc.IsOutside() {
+		if codec == nil {
+			return fmt.Errorf("%w: %T", ErrCodecRequired, message)
+		}
 		data, encErr := codec.Encode(message)
 		if encErr != nil {
 			return encErr
